@@ -164,9 +164,18 @@ func c10Exec(c c10Case, st *lab.Stats) *lab.Fail {
 		}
 		got[m.ID]++
 	}
+	// A client that sends requests BEHIND its Unbind leaves unread bytes in the server's receive buffer; closing
+	// such a socket makes the kernel send a reset and drop what it has not transmitted yet, so the tail of the
+	// earlier handlers' responses can be lost on the way - the client's doing, and nothing the statement
+	// promises. Then only duplicates count; with a well-behaved client every earlier response must arrive.
+	lossy := len(c.Post) > 0 && how == "reset"
 	for i := range c.Pre {
+		if lossy && got[int64(i+1)] == 0 {
+			st.Class("pre-response-lost-to-reset(client sent data behind its unbind)")
+			continue
+		}
 		if got[int64(i+1)] != 1 {
-			return lab.Failf("pre-response-count", "pre request %d got %d responses", i+1, got[int64(i+1)])
+			return lab.Failf("pre-response-count", "pre request %d got %d responses (%d frames received in all, connection ended with %s; responses per message ID: %v)", i+1, got[int64(i+1)], len(frames), how, got)
 		}
 	}
 	mu.Lock()
@@ -204,7 +213,7 @@ func TestC10(t *testing.T) {
 	ops := []string{"bind", "search", "modify", "add", "delete", "extended"}
 	lab.Prop[c10Case]{
 		ID: "C10", Part: "unbind",
-		Rule: "rapid: pipelines <0..8 requests> Unbind <0..8 requests, possibly further Unbinds>, written in one write() or split at generated byte offsets; unbind route absent/present (its handler may panic, recovery enabled), default route absent/present; the Unbind occasionally carries (ill-formed) content octets; any subset of the earlier handlers blocked on a gate that opens 0..40 ms later; oracle = unbind handler exactly once iff registered, no handler entry and no response for anything after the Unbind, no response to the Unbind, every earlier request answered once, connection closed and only after the blocked handlers returned (global sequence numbers); non-trivial = >= 1 request pipelined behind the Unbind in the same write(); distinct by hash",
+		Rule: "rapid: pipelines <0..8 requests (one case in eight: 15..128 requests whose handlers are ALL still blocked)> Unbind <0..8 requests, possibly further Unbinds>, written in one write() or split at generated byte offsets; unbind route absent/present (its handler may panic, recovery enabled), default route absent/present; the Unbind occasionally carries (ill-formed) content octets; any subset of the earlier handlers blocked on a gate that opens 0..40 ms later; oracle = unbind handler exactly once iff registered, no handler entry and no response for anything after the Unbind, no response to the Unbind, every earlier request answered once, connection closed and only after the blocked handlers returned (global sequence numbers); non-trivial = >= 1 request pipelined behind the Unbind in the same write(); distinct by hash",
 		Gen: func(t *rapid.T) c10Case {
 			c := c10Case{
 				UnbindRoute:  rapid.Bool().Draw(t, "unbindroute"),
@@ -212,8 +221,13 @@ func TestC10(t *testing.T) {
 				GateDelayMs:  rapid.SampledFrom([]int{0, 1, 5, 20, 40}).Draw(t, "gatedelay"),
 			}
 			np := rapid.IntRange(0, 8).Draw(t, "npre")
+			crowd := rapid.IntRange(0, 7).Draw(t, "crowd") == 0
+			if crowd {
+				// a crowd of earlier handlers all still running when the Unbind is read
+				np = rapid.SampledFrom([]int{15, 16, 17, 32, 64, 128}).Draw(t, "ncrowd")
+			}
 			for i := 0; i < np; i++ {
-				c.Pre = append(c.Pre, c10Req{Op: rapid.SampledFrom(ops).Draw(t, "preop"), Blocked: rapid.IntRange(0, 2).Draw(t, "blocked") == 0})
+				c.Pre = append(c.Pre, c10Req{Op: rapid.SampledFrom(ops).Draw(t, "preop"), Blocked: crowd || rapid.IntRange(0, 2).Draw(t, "blocked") == 0})
 			}
 			npo := rapid.IntRange(0, 8).Draw(t, "npost")
 			for i := 0; i < npo; i++ {
